@@ -113,6 +113,7 @@ from clematis.graph.store import InMemoryGraphStore  # noqa: E402
 
 def install():
     T1.stable_key = lambda obj: "KEY-UNUSED"
+    W.stub_store_etag()
 
 
 @H.ob(model="realfin", quick=400, thorough=900,
